@@ -369,12 +369,20 @@ def coq_crosscheck(trace_path, work, sample, seed):
 SEQ_DEFAULT = [("mix", 1024, None, 40, 40), ("cas", 1024, None, 30, 40), ("cuts", 1024, None, 20, 30)]
 
 PROPS = {
-    "C06": {
-        "title": "Conditional stores: add / replace / append / prepend semantics",
-        "seq": [("mix", 1024, None, 60, 40), ("cas", 1024, None, 40, 40), ("ttl", 1024, None, 40, 40),
-                ("flush", 1024, None, 20, 40), ("mix", 64, None, 20, 40)],
-        "relevant": "RM",
-    },
+    "C01": {"seq": [("mix", 1024, None, 60, 40), ("wide", 1024, None, 40, 50), ("ttl", 1024, None, 30, 40),
+                    ("mix", 1024, 1000000, 30, 40), ("cuts", 256, None, 20, 30)], "relevant": "RM"},
+    "C02": {"seq": [("cas", 1024, None, 80, 50), ("mix", 1024, None, 30, 40), ("ttl", 1024, None, 30, 40),
+                    ("counter", 1024, None, 30, 40)], "relevant": "RM"},
+    "C05": {"seq": [("ttl", 1024, None, 80, 50), ("flush", 1024, None, 60, 50), ("mix", 1024, None, 30, 40)],
+            "relevant": "RM"},
+    "C06": {"seq": [("mix", 1024, None, 60, 40), ("cas", 1024, None, 40, 40), ("ttl", 1024, None, 40, 40),
+                    ("flush", 1024, None, 20, 40), ("mix", 64, None, 20, 40)], "relevant": "RM"},
+    "C07": {"seq": [("counter", 1024, None, 100, 50), ("cas", 1024, None, 20, 40), ("ttl", 1024, None, 20, 40)],
+            "relevant": "RM"},
+    "C08": {"seq": [("flush", 1024, None, 80, 50), ("ttl", 1024, None, 40, 50), ("cas", 1024, None, 30, 40),
+                    ("wide", 1024, None, 30, 40)], "relevant": "RM"},
+    "C19": {"seq": [("quiet", 1024, None, 80, 50), ("mix", 1024, None, 30, 40), ("counter", 1024, None, 30, 40)],
+            "relevant": "RM"},
 }
 
 KINDS = {"R": "responses", "S": "connection status", "M": "store content", "U": "accounting"}
